@@ -9,6 +9,13 @@ the loops, no bound. A *script* that is too short for the loop to finish is repo
 (`retry_terminates` shows this cannot happen once the script is as long as the budget).
 
 `terminal o` = `o` is a success or a permanent (non-transient) error; `c.budget = max 1 c.maxAttempts`.
+
+Wrappers: every public entry point of `src/helpers/cloud.rs` has its own model definition (which the driver
+runs for that wrapper) and a theorem here that identifies it with `retry` / `execute` / `batchInChunks` /
+`paginate` (`wrapper_eq_retry`, `builder_execute_eq`, `executor_execute_eq`, `cio_timeout_retry_eq`,
+`run_batch_operation_eq`, `run_paginated_eq`). The per-item batch `run_cloud_io_batch` is specified exactly
+(`io_batch_step`, `io_batch_exact`, `io_batch_calls_determined`); `never_retry_batch_excluded` shows that the
+exact statements rule out an implementation the former existential bound admitted.
 -/
 namespace IB.Cloud
 
@@ -211,6 +218,76 @@ theorem execute_outcome (rc : Option RetryConfig) (limit : Option Nat) (script :
        | none => inner.outcome) := by
   cases rc <;> cases limit <;> simp [execute, runWithTimeoutAndRetry]
 
+/-! ## every public wrapper is tied to `retry` / `execute` by a theorem
+
+The driver answers a request for wrapper `w` with `w`'s own model definition (`Model/Cloud.lean`, last
+section, one definition per Rust item); the following theorems — not the driver — identify them. -/
+
+/-- `retry_with_backoff`, `run_with_retry`, `run_cloud_io_with_retry`, and the builder / executor configured
+    with a retry only, all ARE the retry loop: same attempts, same outcome, same waits, on every script. -/
+theorem wrapper_eq_retry (w : RetryWrapper) (c : RetryConfig) (script : List (Res α)) :
+    runWrapper w c script = retry c script := by
+  cases w <;> rfl
+
+/-- hence every retry theorem holds verbatim for every wrapper; the four claims of the property, spelled out -/
+theorem wrapper_retry_claims (w : RetryWrapper) (c : RetryConfig) (script : List (Res α)) :
+    (runWrapper w c script).attempts ≤ max 1 c.maxAttempts ∧
+    (∀ i o, script[i]? = some o → terminal o = true → (runWrapper w c script).attempts ≤ i + 1) ∧
+    (∀ n, 1 ≤ n → n ≤ script.length → n ≤ max 1 c.maxAttempts →
+      (∀ o ∈ script.take (n - 1), terminal o = false) →
+      (n = max 1 c.maxAttempts ∨ ∃ o, script[n - 1]? = some o ∧ terminal o = true) →
+      (runWrapper w c script).attempts = n ∧ (runWrapper w c script).outcome = script[n - 1]?) ∧
+    (∀ o, (runWrapper w c script).outcome = some o →
+      script[(runWrapper w c script).attempts - 1]? = some o) ∧
+    (∀ i x, 1 ≤ i → (runWrapper w c script).sleeps[i]? = some x → x ≤ c.maxDelay) := by
+  rw [wrapper_eq_retry]
+  exact ⟨retry_attempts_le c script,
+    fun i o hi ht => retry_never_after_terminal c script i o hi ht,
+    fun n h1 hl hb hp he => retry_spec c script n h1 hl hb hp he,
+    fun o h => (retry_returns_last c script o h).2.1,
+    fun i x hi hx => retry_sleeps_bounded c script i x hi hx⟩
+
+/-- `OperationBuilder::execute` is the four-way composition `execute` (for every field combination) -/
+theorem builder_execute_eq (b : OperationBuilder) (script : List (Res α)) (durs : List Nat) :
+    b.execute script durs = execute b.retryConfig b.timeout script durs := by
+  obtain ⟨rc, t⟩ := b
+  cases rc <;> cases t <;> rfl
+
+/-- `CloudIOExecutor::execute` is the same composition -/
+theorem executor_execute_eq (b : CloudIOExecutor) (script : List (Res α)) (durs : List Nat) :
+    b.execute script durs = execute b.retryConfig b.timeout script durs := by
+  obtain ⟨rc, t⟩ := b
+  cases rc <;> cases t <;> rfl
+
+/-- the builder methods set exactly the named field (so `new().with_retry(c).with_timeout(t)` and the
+    reverse order configure the same operation) -/
+theorem builder_fields (c : RetryConfig) (t : Nat) :
+    OperationBuilder.new.retryConfig = none ∧ OperationBuilder.new.timeout = none ∧
+    ((OperationBuilder.new.withRetry c).withTimeout t).retryConfig = some c ∧
+    ((OperationBuilder.new.withRetry c).withTimeout t).timeout = some t ∧
+    ((OperationBuilder.new.withTimeout t).withRetry c).retryConfig = some c ∧
+    ((OperationBuilder.new.withTimeout t).withRetry c).timeout = some t ∧
+    CloudIOExecutor.new.retryConfig = none ∧ CloudIOExecutor.new.timeout = none ∧
+    ((CloudIOExecutor.new.withRetry c).withTimeout t).retryConfig = some c ∧
+    ((CloudIOExecutor.new.withRetry c).withTimeout t).timeout = some t ∧
+    ((CloudIOExecutor.new.withTimeout t).withRetry c).retryConfig = some c ∧
+    ((CloudIOExecutor.new.withTimeout t).withRetry c).timeout = some t := by
+  refine ⟨rfl, rfl, rfl, rfl, rfl, rfl, rfl, rfl, rfl, rfl, rfl, rfl⟩
+
+/-- `run_cloud_io_with_retry_and_timeout` is `run_with_timeout_and_retry` -/
+theorem cio_timeout_retry_eq (c : RetryConfig) (limit : Nat) (script : List (Res α)) (durs : List Nat) :
+    runCloudIoWithRetryAndTimeout c limit script durs = runWithTimeoutAndRetry c limit script durs := rfl
+
+/-- `run_batch_operation` is `batch_in_chunks` on `config.chunk_size` (so `batch_*` apply with
+    `size = cfg.chunkSize`, chunk size 0 included); `parallel` has no influence -/
+theorem run_batch_operation_eq (items : List α) (cfg : BatchConfig) (f : Nat → List α → Res (List β)) :
+    runBatchOperation items cfg f = batchInChunks items cfg.chunkSize f := rfl
+
+/-- `run_paginated_operation` and `run_cloud_io_paginated` are `paginate` -/
+theorem run_paginated_eq (c : PageConfig) (script : List (Res (List α × Bool))) :
+    runPaginatedOperation c script = paginate c script ∧ runCloudIoPaginated c script = paginate c script :=
+  ⟨rfl, rfl⟩
+
 /-! ## batch -/
 
 /-- `slice::chunks(n)`, `n ≥ 1`: chunk `i` is `items[i*n .. min((i+1)*n, len)]`, and there are no others. -/
@@ -394,15 +471,149 @@ theorem paginate_none (c : PageConfig) (script : List (Res (List α × Bool)))
 
 variable {ι : Type}
 
-/-- The operation is called for the items in order, each at most `max(1, budget)` times, none skipped
-    (the call trace is `item₀ × k₀ ++ item₁ × k₁ ++ …` over an initial segment of the items); on success
-    every item was attempted at least once and produced exactly one result. -/
-theorem io_batch_calls (c : RetryConfig) (items : List ι) (script : List (Res β)) :
+/-- Bounds that follow from the exact statements below (kept because they are what a reader first asks):
+    the call trace is `item₀ × k₀ ++ item₁ × k₁ ++ …` over an initial segment of the items, every
+    `kᵢ ≤ max(1, budget)`; on success every item was attempted at least once and gave exactly one result.
+    On its own this does NOT pin the helper down (a batch that never retries satisfies it, see
+    `never_retry_batch_satisfies_the_bounds`) — `io_batch_step` and `io_batch_exact` do. -/
+theorem io_batch_calls_bounds (c : RetryConfig) (items : List ι) (script : List (Res β)) :
     ∃ ks : List Nat, ks.length ≤ items.length ∧ (∀ k ∈ ks, k ≤ max 1 c.maxAttempts) ∧
       (ioBatch c items script).calls = (items.zip ks).flatMap (fun p => List.replicate p.2 p.1) ∧
       (∀ vs, (ioBatch c items script).outcome = some (.ok vs) →
         ks.length = items.length ∧ vs.length = items.length ∧ ∀ k ∈ ks, 1 ≤ k) :=
   ioBatch_calls c items script
+
+/-- no item: no call, `Ok(vec![])` -/
+theorem io_batch_nil (c : RetryConfig) (script : List (Res β)) :
+    (ioBatch c ([] : List ι) script).calls = [] ∧ (ioBatch c ([] : List ι) script).sleeps = [] ∧
+      (ioBatch c ([] : List ι) script).outcome = some (.ok []) := by
+  simp [ioBatch]
+
+/-- EXACT recursion ("attempted until …" for the per-item wrapper). The first item is handed to the
+    operation exactly `(retry c script).attempts` times — by `retry_spec` that is 1 + the index of the first
+    success / permanent error, or `max(1, budget)` — with exactly `retry`'s waits. If and only if that retry
+    succeeds, the remaining items are processed the same way on what is left of the script, and their
+    calls / waits / results follow; otherwise the batch stops right there and returns that retry's error
+    (`none`: the script ran out). The item count, the script and the configuration are arbitrary. -/
+theorem io_batch_step (c : RetryConfig) (it : ι) (its : List ι) (script : List (Res β)) :
+    (ioBatch c (it :: its) script).calls =
+      List.replicate (retry c script).attempts it ++
+        (match (retry c script).outcome with
+         | some (.ok _) => (ioBatch c its (script.drop (retry c script).attempts)).calls
+         | _ => []) ∧
+    (ioBatch c (it :: its) script).sleeps =
+      (retry c script).sleeps ++
+        (match (retry c script).outcome with
+         | some (.ok _) => (ioBatch c its (script.drop (retry c script).attempts)).sleeps
+         | _ => []) ∧
+    (ioBatch c (it :: its) script).outcome =
+      (match (retry c script).outcome with
+       | none => none
+       | some (.error e) => some (.error e)
+       | some (.ok v) => (ioBatch c its (script.drop (retry c script).attempts)).outcome.map (consOk v)) :=
+  ioBatch_cons c it its script
+
+/-- The same without recursion in the statement. There is a list `ks` (`ks[j]` = number of calls made for
+    item `j`; item `j` starts at script position `(ks.take j).sum`) such that
+    1. the call trace is `item₀ × ks[0] ++ item₁ × ks[1] ++ …`, in item order;
+    2. `ks[j]` is EXACTLY the number of attempts `retry` makes on the script from that position on;
+    3. an item is only tried after every earlier item's retry succeeded;
+    4. items are left untried only because the last tried item's retry did not succeed;
+    5. the batch returns an error / runs out of script iff the last tried item's retry does, with that very
+       error; 6. it returns `Ok vs` only if every item was tried and `vs[j]` is the value item `j`'s retry returned.
+    Conditions 2–4 determine `ks` uniquely, so this fixes calls and outcome for every input. -/
+theorem io_batch_exact (c : RetryConfig) (items : List ι) (script : List (Res β)) :
+    ∃ ks : List Nat, ks.length ≤ items.length ∧
+      (ioBatch c items script).calls = (items.zip ks).flatMap (fun p => List.replicate p.2 p.1) ∧
+      (∀ j k, ks[j]? = some k → k = (retry c (script.drop (ks.take j).sum)).attempts) ∧
+      (∀ j, j + 1 < ks.length → ∃ v, (retry c (script.drop (ks.take j).sum)).outcome = some (.ok v)) ∧
+      (ks.length < items.length → 1 ≤ ks.length ∧
+        ∀ v, (retry c (script.drop (ks.take (ks.length - 1)).sum)).outcome ≠ some (.ok v)) ∧
+      (∀ e, (ioBatch c items script).outcome = some (.error e) ↔
+        (1 ≤ ks.length ∧
+          (retry c (script.drop (ks.take (ks.length - 1)).sum)).outcome = some (.error e))) ∧
+      ((ioBatch c items script).outcome = none ↔
+        (1 ≤ ks.length ∧ (retry c (script.drop (ks.take (ks.length - 1)).sum)).outcome = none)) ∧
+      (∀ vs, (ioBatch c items script).outcome = some (.ok vs) →
+        ks.length = items.length ∧ vs.length = items.length ∧
+        ∀ j v, vs[j]? = some v → (retry c (script.drop (ks.take j).sum)).outcome = some (.ok v)) :=
+  ioBatch_exact c items script
+
+/-- `IoTrace c n script ks` (`Proofs/Cloud.lean`) = conditions 2–4 above plus `ks.length ≤ n`. For every
+    input there is such a `ks` (non-vacuity of the next two theorems) … -/
+theorem io_batch_trace_exists (c : RetryConfig) (items : List ι) (script : List (Res β)) :
+    ∃ ks, IoTrace c items.length script ks := by
+  obtain ⟨ks, hlen, _, h2, h3, h4, _⟩ := io_batch_exact c items script
+  exact ⟨ks, hlen, h2, h3, h4⟩
+
+/-- … exactly one … -/
+theorem io_batch_trace_unique (c : RetryConfig) (n : Nat) (script : List (Res β)) (ks ks' : List Nat)
+    (h : IoTrace c n script ks) (h' : IoTrace c n script ks') : ks = ks' :=
+  IoTrace.unique h h'
+
+/-- … and it IS the call trace: whenever `ks` gives, for each item in turn, exactly the number of attempts
+    `retry` makes from that item's position in the script, goes on only after a success and stops only at a
+    failure, the operation was called `ks[j]` times for item `j`, in item order, and for nothing else. -/
+theorem io_batch_calls_determined (c : RetryConfig) (items : List ι) (script : List (Res β)) (ks : List Nat)
+    (h : IoTrace c items.length script ks) :
+    (ioBatch c items script).calls = (items.zip ks).flatMap (fun p => List.replicate p.2 p.1) := by
+  obtain ⟨ks', hlen, hcalls, h2, h3, h4, _⟩ := io_batch_exact c items script
+  have e : ks = ks' := IoTrace.unique h ⟨hlen, h2, h3, h4⟩
+  subst e; exact hcalls
+
+/-- In the property's own words, for the first item (the others follow by `io_batch_step`): if the first
+    `n − 1` outcomes are transient errors, `n ≤ max(1, budget)`, and the `n`-th is a success / permanent error
+    or the budget is used up, then the call trace starts with exactly `n` calls for the first item, and the
+    next call (if any) is for the NEXT item — so a per-item batch that does not retry, or retries too often,
+    is excluded. -/
+theorem io_batch_first_item (c : RetryConfig) (it : ι) (its : List ι) (script : List (Res β)) (n : Nat)
+    (h1 : 1 ≤ n) (hlen : n ≤ script.length) (hb : n ≤ max 1 c.maxAttempts)
+    (hpre : ∀ o ∈ script.take (n - 1), terminal o = false)
+    (hend : n = max 1 c.maxAttempts ∨ ∃ o, script[n - 1]? = some o ∧ terminal o = true) :
+    ∃ rest, (ioBatch c (it :: its) script).calls = List.replicate n it ++ rest ∧
+      (∀ x ∈ rest, x ∈ its) ∧
+      (∀ e, script[n - 1]? = some (.error e) →
+        rest = [] ∧ (ioBatch c (it :: its) script).outcome = some (.error e)) := by
+  obtain ⟨ha, ho⟩ := retry_spec c script n h1 hlen hb hpre hend
+  obtain ⟨hc, _, hout⟩ := io_batch_step c it its script
+  rw [ha] at hc
+  refine ⟨_, hc, ?_, ?_⟩
+  · intro x hx
+    split at hx
+    · obtain ⟨ks, _, _, hcalls, _⟩ := io_batch_calls_bounds c its (script.drop n)
+      rw [hcalls] at hx
+      simp only [List.mem_flatMap, List.mem_replicate] at hx
+      obtain ⟨p, hp, _, rfl⟩ := hx
+      exact (List.of_mem_zip hp).1
+    · simp at hx
+  · intro e he
+    rw [he] at ho
+    rw [ho] at hout
+    simp only [ho]
+    exact ⟨trivial, hout⟩
+
+/-- The counter-model `neverRetryBatch` (one call per item, stop at the first `Err`) satisfies the bounds
+    of `io_batch_calls_bounds` and `io_batch_error_is_last` on this input … -/
+theorem never_retry_batch_satisfies_the_bounds :
+    let c : RetryConfig := ⟨3, 1, 2, 2.0⟩
+    let s : List (Res Nat) := [.error ⟨.network, 0⟩, .ok 1, .ok 2]
+    (neverRetryBatch [10, 11] s).calls = ([10].zip [1]).flatMap (fun p => List.replicate p.2 p.1) ∧
+      1 ≤ max 1 c.maxAttempts ∧
+      (neverRetryBatch [10, 11] s).outcome = some (.error ⟨.network, 0⟩) ∧
+      s[(neverRetryBatch [10, 11] s).calls.length - 1]? = some (.error ⟨.network, 0⟩) := by
+  refine ⟨by decide, by decide, rfl, rfl⟩
+
+/-- … but it is NOT the model of `run_cloud_io_batch`: the exact statements demand two calls for item 10
+    (a transient error is retried), then one for item 11, and `Ok`. -/
+theorem never_retry_batch_excluded :
+    let c : RetryConfig := ⟨3, 1, 2, 2.0⟩
+    let s : List (Res Nat) := [.error ⟨.network, 0⟩, .ok 1, .ok 2]
+    (ioBatch c [10, 11] s).calls = [10, 10, 11] ∧ (ioBatch c [10, 11] s).outcome = some (.ok [1, 2]) ∧
+      (ioBatch c [10, 11] s).sleeps = [1] ∧
+      (neverRetryBatch [10, 11] s).calls ≠ (ioBatch c [10, 11] s).calls ∧
+      (neverRetryBatch [10, 11] s).calls ≠
+        List.replicate (retry c s).attempts 10 ++ (neverRetryBatch [11] (s.drop (retry c s).attempts)).calls := by
+  refine ⟨by decide, rfl, by decide, by decide, by decide⟩
 
 /-- A failure is the outcome of the very last call: nothing is attempted after the first item whose
     retries fail. -/
@@ -463,5 +674,26 @@ example :
     (ioBatch ⟨2, 1, 1, 2.0⟩ [10, 11, 12]
       [(.error ⟨.network, 0⟩ : Res Nat), .ok 1, .ok 2, .error ⟨.network, 3⟩, .error ⟨.timeout, 4⟩]).calls
       = [10, 10, 11, 12, 12] := by decide
+
+/-- the `ks` of `io_batch_exact` on that input is `[2, 1, 2]`: item 11 starts at script position 2, item 12 at 3 -/
+example :
+    let c : RetryConfig := ⟨2, 1, 1, 2.0⟩
+    let s : List (Res Nat) := [.error ⟨.network, 0⟩, .ok 1, .ok 2, .error ⟨.network, 3⟩, .error ⟨.timeout, 4⟩]
+    (retry c s).attempts = 2 ∧ (retry c (s.drop 2)).attempts = 1 ∧ (retry c (s.drop 3)).attempts = 2 ∧
+      (retry c (s.drop 3)).outcome = some (.error ⟨.timeout, 4⟩) ∧
+      (ioBatch c [10, 11, 12] s).outcome = some (.error ⟨.timeout, 4⟩) ∧
+      (ioBatch c [10, 11, 12] s).sleeps = [1, 1] := by
+  refine ⟨by decide, by decide, by decide, rfl, rfl, by decide⟩
+
+/-- the wrappers on a concrete script (all five give the retry loop's answer; the executor with a timeout
+    turns the slow success into `Timeout`) -/
+example :
+    let c : RetryConfig := ⟨3, 1, 2, 2.0⟩
+    let s : List (Res Nat) := [.error ⟨.network, 0⟩, .error ⟨.rateLimited, 1⟩, .ok 2]
+    (RetryWrapper.all.map (fun w => (runWrapper w c s).attempts)) = [3, 3, 3, 3, 3] ∧
+      (runWrapper .exe c s).sleeps = [1, 2] ∧
+      (((CloudIOExecutor.new.withRetry c).withTimeout 20).execute s [10, 10, 10]).outcome
+        = some (.error timeoutErr) := by
+  refine ⟨by decide, by decide, rfl⟩
 
 end IB.Cloud
